@@ -1043,8 +1043,8 @@ func (r *Raft) sendAppendEntries(id string, address string, numResponses *int) {
 	}
 
 	// If the majority of cluster acknowledges the request, this node is a legitimate leader.
-	// Try to apply pending read-only operations.
-	if numResponses != nil {
+	// Try to apply pending read-only operations. Only voting members count towards quorum.
+	if numResponses != nil && r.isVoter(id) {
 		*numResponses += 1
 		if r.hasQuorum(*numResponses) {
 			r.tryApplyReadOnlyOperations()
